@@ -425,6 +425,13 @@ func parseCache(spec string) (on bool, policy string, size int) {
 	return true, parts[0], n
 }
 
+func (w *world) partOf(n int) int {
+	id := w.drrs[n].Key.ParentKeyMeta.ID
+	var p int
+	fmt.Sscanf(id, "_IK_p%d_", &p)
+	return p
+}
+
 func (w *world) secLine() string {
 	closed, live, multi, aac := 0, 0, 0, 0
 	for _, s := range w.secrets {
@@ -814,6 +821,10 @@ func (g *gen) randomCase(length int) {
 				continue
 			}
 			n := r.Intn(len(g.w.drrs))
+			// prefer a record of this session's partition (foreign records are C06's business)
+			for try := 0; try < 6 && g.w.partOf(n) != g.w.sessPart[s]; try++ {
+				n = r.Intn(len(g.w.drrs))
+			}
 			mut := "-"
 			if r.Intn(4) == 0 {
 				mut = g.mutation(n)
@@ -970,6 +981,267 @@ func (g *gen) mutation(n int) string {
 	return "flipdata:0"
 }
 
+
+// ---------------------------------------------------------------------------------------------
+// structured generators
+
+type prelude struct {
+	name string
+	ops  []string // executed before the operation under test; sessions 0 (partition 0) exists afterwards
+}
+
+const facDefault = "expire=600000000000 revoke=60000000000 prec=1000000000"
+
+func preludes(sk, ik string) []prelude {
+	fac := func(n int) string { return fmt.Sprintf("fac %d %s sk=%s ik=%s shared=0", n, facDefault, sk, ik) }
+	return []prelude{
+		{"cold", []string{fac(0), "sess 0 0 0"}},
+		{"warm", []string{fac(0), "sess 0 0 0", "enc 0 1 flt=-"}},
+		{"stale", []string{fac(0), "sess 0 0 0", "enc 0 1 flt=-", "adv 60000000001"}},
+		{"expired", []string{fac(0), "sess 0 0 0", "enc 0 1 flt=-", "adv 600000000001"}},
+		{"ik-revoked", []string{fac(0), "sess 0 0 0", "enc 0 1 flt=-", "rev ik0 0", "adv 61000000000"}},
+		{"sk-revoked", []string{fac(0), "sess 0 0 0", "enc 0 1 flt=-", "rev sk 0", "adv 61000000000"}},
+		{"other-rotated", []string{fac(0), "sess 0 0 0", "enc 0 1 flt=-", "rev sk 0", "adv 2000000000", fac(1), "sess 1 1 0", "enc 1 2 flt=-", "adv 61000000000"}},
+		{"fresh-after-rotation", []string{fac(0), "sess 0 0 0", "enc 0 1 flt=-", "rev ik0 0", "adv 2000000000", "enc 0 2 flt=-", "cls 0", "fcls 0", fac(1), "sess 1 1 0"}},
+	}
+}
+
+func lastSession(ops []string) int {
+	n := -1
+	for _, o := range ops {
+		if strings.HasPrefix(o, "sess ") {
+			n++
+		}
+	}
+	return n
+}
+
+// faultCases: every single fault position (and, with pairs, every pair) x fault kind in the
+// operation under test, for every prelude; afterwards a fresh process decrypts what was returned
+// and one fault-free encrypt + decrypt must succeed (C02, C09, C10).
+func faultCases(pairs bool) {
+	kinds := []string{"err", "dup", "errw"}
+	for _, cfg := range [][2]string{{"simple", "simple"}, {"none", "none"}, {"lru:1", "lru:1"}} {
+		for _, pre := range preludes(cfg[0], cfg[1]) {
+			for _, target := range []string{"enc", "dec"} {
+				// dry run: how many external calls does the operation make?
+				w := newWorld()
+				silent := out
+				out = bufio.NewWriter(io.Discard)
+				for _, o := range pre.ops {
+					w.exec(o)
+				}
+				s := lastSession(pre.ops)
+				opLine := fmt.Sprintf("enc %d 7 flt=", s)
+				if target == "dec" {
+					if len(w.drrs) == 0 {
+						out = silent
+						w.closeAll()
+						continue
+					}
+					opLine = fmt.Sprintf("dec %d 0 mut=- flt=", s)
+				}
+				w.exec(opLine + "-")
+				n := len(w.calls)
+				w.closeAll()
+				out = silent
+				var schedules []string
+				for i := 0; i < n; i++ {
+					for _, k := range kinds {
+						toks := make([]string, i+1)
+						for j := range toks {
+							toks[j] = "ok"
+						}
+						toks[i] = k
+						schedules = append(schedules, strings.Join(toks, ","))
+						if pairs {
+							for j := i + 1; j < n+2; j++ {
+								for _, k2 := range kinds {
+									t2 := make([]string, j+1)
+									for x := range t2 {
+										t2[x] = "ok"
+									}
+									t2[i], t2[j] = k, k2
+									schedules = append(schedules, strings.Join(t2, ","))
+								}
+							}
+						}
+					}
+				}
+				for _, fl := range schedules {
+					w := newWorld()
+					fmt.Fprintln(out, "new")
+					for _, o := range pre.ops {
+						w.exec(o)
+					}
+					nrec := len(w.drrs)
+					w.exec(opLine + fl)
+					nf := strings.Count(strings.Join(pre.ops, "\n"), "fac ")
+					ns := lastSession(pre.ops) + 1
+					// a fresh process reads back what was handed out
+					w.exec(fmt.Sprintf("fac %d %s sk=none ik=none shared=0", nf, facDefault))
+					w.exec(fmt.Sprintf("sess %d %d 0", nf, ns))
+					if len(w.drrs) > nrec {
+						w.exec(fmt.Sprintf("dec %d %d flt=- mut=-", ns, nrec))
+					}
+					// once the faults stop the next operations succeed
+					w.exec(fmt.Sprintf("enc %d 9 flt=-", s))
+					w.exec(fmt.Sprintf("dec %d %d flt=- mut=-", s, len(w.drrs)-1))
+					w.exec("end")
+				}
+			}
+		}
+	}
+}
+
+// mutationCases: every single-bit flip and every truncation of Data and of the encrypted key of
+// genuine records, every recombination of fields of three genuine records, structural variants,
+// corrupted / missing rows (C07).
+func mutationCases(allBits bool) {
+	for _, cfg := range [][2]string{{"simple", "simple"}, {"none", "none"}} {
+		w := newWorld()
+		fmt.Fprintln(out, "new")
+		w.exec(fmt.Sprintf("fac 0 %s sk=%s ik=%s shared=0", facDefault, cfg[0], cfg[1]))
+		w.exec("sess 0 0 0")
+		w.exec("sess 0 1 1")
+		w.exec("enc 0 3 flt=-")  // rec 0, partition 0
+		w.exec("enc 0 17 flt=-") // rec 1, empty payload
+		w.exec("enc 1 5 flt=-")  // rec 2, partition 1
+		w.exec("rev ik0 0")
+		w.exec("adv 2000000000")
+		w.exec("enc 0 4 flt=-") // rec 3 under a rotated IK
+		step := 1
+		if !allBits {
+			step = 7
+		}
+		for rec := 0; rec < 4; rec++ {
+			sess := 0
+			if rec == 2 {
+				sess = 1
+			}
+			nd, nk := len(w.drrs[rec].Data)*8, len(w.drrs[rec].Key.EncryptedKey)*8
+			for b := 0; b < nd; b += step {
+				w.exec(fmt.Sprintf("dec %d %d flt=- mut=flipdata:%d", sess, rec, b))
+			}
+			for b := 0; b < nk; b += step {
+				w.exec(fmt.Sprintf("dec %d %d flt=- mut=flipkey:%d", sess, rec, b))
+			}
+			for l := 0; l < len(w.drrs[rec].Data); l++ {
+				w.exec(fmt.Sprintf("dec %d %d flt=- mut=truncdata:%d", sess, rec, l))
+			}
+			for l := 0; l < len(w.drrs[rec].Key.EncryptedKey); l++ {
+				w.exec(fmt.Sprintf("dec %d %d flt=- mut=trunckey:%d", sess, rec, l))
+			}
+			for _, m := range []string{"nokey", "noparent", "nildata", "parentcreated:1", "parentcreated:2", "parentsk"} {
+				w.exec(fmt.Sprintf("dec %d %d flt=- mut=%s", sess, rec, m))
+			}
+			for other := 0; other < 4; other++ {
+				for _, m := range []string{"splicedata", "splicekey", "spliceparent"} {
+					w.exec(fmt.Sprintf("dec %d %d flt=- mut=%s:%d", sess, rec, m, other))
+					w.exec(fmt.Sprintf("dec %d %d flt=- mut=%s:%d", 1-sess, rec, m, other))
+				}
+			}
+		}
+		w.exec("end")
+		// corrupted and missing key rows
+		for _, v := range []string{"noparent", "junk", "short"} {
+			for _, k := range [][2]string{{"ik0", "0"}, {"ik0", "2"}, {"sk", "0"}, {"ik1", "0"}} {
+				w2 := newWorld()
+				fmt.Fprintln(out, "new")
+				w2.exec(fmt.Sprintf("fac 0 %s sk=%s ik=%s shared=0", facDefault, cfg[0], cfg[1]))
+				w2.exec("sess 0 0 0")
+				w2.exec("sess 0 1 1")
+				w2.exec("enc 0 3 flt=-")
+				w2.exec("enc 1 5 flt=-")
+				w2.exec("adv 2000000000")
+				w2.exec("rev ik0 0")
+				w2.exec("enc 0 4 flt=-")
+				w2.exec(fmt.Sprintf("rowmut %s %s %s", k[0], k[1], v))
+				w2.exec(fmt.Sprintf("fac 1 %s sk=%s ik=%s shared=0", facDefault, cfg[0], cfg[1]))
+				w2.exec("sess 1 2 0")
+				w2.exec("sess 1 3 1")
+				for rec := 0; rec < 3; rec++ {
+					w2.exec(fmt.Sprintf("dec 2 %d flt=- mut=-", rec))
+					w2.exec(fmt.Sprintf("dec 3 %d flt=- mut=-", rec))
+					w2.exec(fmt.Sprintf("dec 0 %d flt=- mut=-", rec))
+				}
+				w2.exec("enc 2 8 flt=-")
+				w2.exec("enc 3 8 flt=-")
+				w2.exec("adv 61000000000")
+				w2.exec("enc 0 8 flt=-")
+				w2.exec("end")
+			}
+		}
+	}
+}
+
+// boundaryCases: clock placements around the revoke-check interval and the key lifetime, with
+// and without revocation, rotation by another process, for every cache configuration (C04 C05 C20).
+func boundaryCases(full bool) {
+	cfgs := [][3]string{{"simple", "simple", "0"}, {"none", "none", "0"}, {"lru:1", "lru:1", "0"}, {"simple", "simple", "1"},
+		{"slru:2", "lfu:2", "1"}, {"simple", "none", "0"}, {"none", "simple", "0"}, {"tinylfu:2", "tinylfu:2", "0"}}
+	if !full {
+		cfgs = cfgs[:5]
+	}
+	iv, ex := int64(60e9), int64(600e9)
+	offs := []int64{iv - 1, iv, iv + 1, 2*iv - 1, 2 * iv, 2*iv + 1, ex - 1, ex, ex + 1, ex + iv + 1, 1e9, 1}
+	revs := []string{"-", "ik0", "sk", "both"}
+	for _, cfg := range cfgs {
+		for _, rv := range revs {
+			for _, other := range []bool{false, true} {
+				for _, preAdv := range []int64{0, 30e9} {
+					for _, o1 := range offs {
+						w := newWorld()
+						fmt.Fprintln(out, "new")
+						w.exec(fmt.Sprintf("fac 0 %s sk=%s ik=%s shared=%s", facDefault, cfg[0], cfg[1], cfg[2]))
+						w.exec("sess 0 0 0")
+						w.exec("enc 0 1 flt=-")
+						w.exec("enc 0 2 flt=-") // C20: immediate repetition
+						w.exec("dec 0 0 flt=- mut=-")
+						w.exec("dec 0 0 flt=- mut=-")
+						if preAdv > 0 {
+							w.exec(fmt.Sprintf("adv %d", preAdv))
+						}
+						switch rv {
+						case "ik0":
+							w.exec("rev ik0 0")
+						case "sk":
+							w.exec("rev sk 0")
+						case "both":
+							w.exec("rev sk 0")
+							w.exec("rev ik0 0")
+						}
+						if other {
+							w.exec("adv 1000000000")
+							w.exec(fmt.Sprintf("fac 1 %s sk=%s ik=%s shared=%s", facDefault, cfg[0], cfg[1], cfg[2]))
+							w.exec("sess 1 1 0")
+							w.exec("enc 1 3 flt=-")
+						}
+						w.exec(fmt.Sprintf("adv %d", o1))
+						s2 := 0
+						w.exec(fmt.Sprintf("enc %d 4 flt=-", s2))
+						w.exec(fmt.Sprintf("enc %d 5 flt=-", s2))
+						w.exec("dec 0 0 flt=- mut=-")
+						w.exec(fmt.Sprintf("adv %d", iv+1))
+						w.exec("enc 0 6 flt=-")
+						w.exec(fmt.Sprintf("adv %d", iv+1))
+						w.exec("enc 0 7 flt=-")
+						// a fresh session of the same factory and a fresh factory
+						ns := 1
+						if other {
+							ns = 2
+						}
+						w.exec(fmt.Sprintf("sess 0 %d 0", ns))
+						w.exec(fmt.Sprintf("enc %d 8 flt=-", ns))
+						w.exec(fmt.Sprintf("dec %d 0 flt=- mut=-", ns))
+						w.exec("end")
+					}
+				}
+			}
+		}
+	}
+}
+
 func replay(path string) {
 	f, err := os.Open(path)
 	if err != nil {
@@ -1004,7 +1276,7 @@ func replay(path string) {
 }
 
 func main() {
-	mode := flag.String("mode", "random", "random|replay")
+	mode := flag.String("mode", "random", "random|replay|faults|faultpairs|mutations|allmutations|boundaries|allboundaries")
 	cases := flag.Int("cases", 300, "random cases")
 	length := flag.Int("len", 40, "ops per case")
 	file := flag.String("file", "", "replay file")
@@ -1019,5 +1291,17 @@ func main() {
 		}
 	case "replay":
 		replay(*file)
+	case "faults":
+		faultCases(false)
+	case "faultpairs":
+		faultCases(true)
+	case "mutations":
+		mutationCases(false)
+	case "allmutations":
+		mutationCases(true)
+	case "boundaries":
+		boundaryCases(false)
+	case "allboundaries":
+		boundaryCases(true)
 	}
 }
